@@ -82,6 +82,15 @@ theorem run_one_cycle (prm : GMRES.Params K) (sqrt : K → K) (eps : K) (A : CRS
     unfold cycle; rw [update_iter, i3]
   rw [this]
 
+/-- every state at the `break` test of the outer loop is produced by `head`; with a non-zero residual norm it is a
+`CycleStart` -/
+theorem cycleStart_head (side : Side) (sqrt : K → K) (A : CRS K) (P : Vec K → Vec K) (f : Vec K) (st' : GMRES.St K)
+    (hne : (head side stdIp sqrt A P f st').normR ≠ 0) :
+    CycleStart side sqrt A P f (head side stdIp sqrt A P f st') := by
+  refine ⟨?_, ?_, hne⟩
+  · rw [head_r, head_x]
+  · rw [head_normR, head_r]
+
 end run
 
 /-! ### the Arnoldi span is the Krylov space -/
